@@ -82,6 +82,11 @@ def gen_cases(tier, seed):
         for first in ('add', 'create'):
             yield {'scenario': 'release-interrupted', 'first': first,
                    'later': later}
+    for where in ('single', 'first', 'second'):
+        for stacked in (False, True):
+            for disabled in (False, True):
+                yield {'scenario': 'lineage', 'where': where,
+                       'stacked': stacked, 'disabled': disabled}
     for i in range(3 if tier == 'quick' else 48):
         rng = random.Random(f'C02/scale/{seed}/{tier}/{i}')
         case = {'classes': wl.gen_classes(rng, 6, wl.SHAPES),
@@ -124,6 +129,86 @@ def gen_cases(tier, seed):
             yield reentry.gen_unref(
                 random.Random(f'C02/unref/{seed}/{tier}/{i}'))
         yield gen_one(random.Random(f'C02/{seed}/{tier}/{i}'), tier, i)
+
+
+def run_lineage(case):
+    """Component classes that get their lifecycle mapping from further up:
+    a decorated class whose direct base is an UNDECORATED class deriving
+    from two handler classes (on_add/on_remove declared by the one named in
+    `where`), also decorated twice. Attached, replaced and removed with
+    dispatching enabled or disabled: on_add and on_remove once each."""
+    from vf import import_desper
+    desper = import_desper()
+    res = Res()
+    log = []
+
+    class Life:
+        def on_add(self, entity, world):
+            log.append((self.uid, 'add', entity, world))
+
+        def on_remove(self, entity, world):
+            log.append((self.uid, 'remove', entity, world))
+
+        def ping(self, *args):
+            log.append((self.uid, 'ping'))
+    Life = desper.event_handler('on_add', 'on_remove')(Life)
+
+    @desper.event_handler('ping')
+    class Pinged:
+        def ping(self, *args):
+            log.append((self.uid, 'ping'))
+
+    if case['where'] == 'second':
+        class Mid(Pinged, Life):
+            pass
+    elif case['where'] == 'first':
+        class Mid(Life, Pinged):
+            pass
+    else:
+        class Mid(Life):
+            pass
+
+    class Comp(Mid):
+        def pong(self, *args):
+            log.append((self.uid, 'pong'))
+    if case['stacked']:
+        Comp = desper.event_handler('pong')(
+            desper.event_handler(extra='pong')(Comp))
+    else:
+        Comp = desper.event_handler('pong', extra='pong')(Comp)
+    w = desper.World()
+    if case['disabled']:
+        w.dispatch_enabled = False
+    a, b = Comp(), Comp()
+    a.uid, b.uid = 'a', 'b'
+    e = w.create_entity(a)
+    w.add_component(e, b)           # replaces a
+    w.remove_component(e, Comp)
+    if case['disabled']:
+        if log:
+            res.div(0, 'callback-while-disabled', 'a lifecycle callback ran '
+                    'while dispatching was disabled', [], [x[:2] for x in log])
+            return res
+        w.dispatch_enabled = True
+    got = [x[:2] for x in log]
+    want = [('a', 'add'), ('a', 'remove'), ('b', 'add'), ('b', 'remove')]
+    res.stats['callback_sequences_checked'] += 2
+    if got != want or any(x[2] != e or x[3] is not w for x in log):
+        res.div(1, 'lineage-lifecycle', 'a component class that inherits '
+                'on_add/on_remove through an undecorated class with '
+                f'{case["where"]!r} handler base(s)'
+                + (', decorated twice' if case['stacked'] else '')
+                + ': lifecycle callbacks', want, got)
+        return res
+    want_events = {'on_add', 'on_remove', 'pong', 'extra'} | (
+        {'ping'} if case['where'] in ('first', 'second') else set())
+    if set(Comp.__events__) != want_events:
+        res.div(2, 'lineage-mapping', 'event names the class listens to',
+                sorted(want_events), sorted(Comp.__events__))
+    res.nontrivial = True
+    res.tags['lineage'].add((case['where'], case['stacked'],
+                             case['disabled']))
+    return res
 
 
 def run_scenario(case):
@@ -409,6 +494,8 @@ def run_case(case):
         return reentry.run_nested(case)
     if case.get('scenario') == 'unreferenced':
         return reentry.run_unref(case)
+    if case.get('scenario') == 'lineage':
+        return run_lineage(case)
     if case.get('scenario'):
         return run_scenario(case)
     res = Res()
